@@ -22,7 +22,7 @@ TStep ==
      \/ Ev.ev = "disc_call" /\ DiscCall
      \/ Ev.ev = "reopen" /\ Reopen
      \/ Ev.ev = "refused" /\ Refused
-     \/ Ev.ev = "state" /\ StateCb(Ev.online, Ev.state)
+     \/ Ev.ev = "state" /\ StateCb(Ev.online, Ev.state, Ev.by)
      \/ Ev.ev = "ret" /\ Ev.kind \in {"reply", "secop"} /\ RetReply(Ev.i, Ev.gid)
      \/ Ev.ev = "ret" /\ Ev.kind \in {"reply", "secop"} /\ RetLateReply(Ev.i, Ev.gid)
      \/ Ev.ev = "ret" /\ Ev.kind = "timeout" /\ RetTimeout(Ev.i, Ev.dt)
@@ -31,7 +31,8 @@ TStep ==
      \/ Ev.ev = "ret" /\ Ev.kind = "secop" /\ Ev.gid = 0 /\ RetRefused(Ev.i)
      \/ Ev.ev = "ret" /\ Ev.kind = "timeout" /\ Dev_TimeoutStalePark(Ev.i)
      \/ Ev.ev = "ret" /\ Ev.kind = "timeout" /\ Dev_TimeoutLostInTxq(Ev.i)
-     \/ Ev.ev = "disc_ret" /\ Ev.exc = "" /\ life = "shutdown" /\ DiscRetOK       \* the shutdown was announced
+     \/ Ev.ev = "disc_ret" /\ Ev.exc = "" /\ life \in {"shutdown", "reopened"} /\ DiscRetOK   \* the shutdown was announced
+                                        \* (a request made meanwhile may have re-opened the client: "reopened")
      \/ Ev.ev = "disc_ret" /\ Ev.exc = "AttributeError" /\ Dev_DiscRaised(Ev.who)
      \/ Ev.ev = "end" /\ Ev.left = <<>> /\ Ev.excs = <<>> /\ DiscRetOK
      \/ Ev.ev = "end" /\ Ev.left = <<>> /\ Ev.excs # <<>> /\ \A n \in 1 .. Len(Ev.excs) : Ev.excs[n] = "AttributeError:join"
